@@ -27,6 +27,7 @@ type Param struct {
 	Optional bool
 	Group    string
 	Soft     bool
+	SliceT   string  // PGroup: type code of a named slice carrying the group ("" = plain []T)
 	Fields   []Param // PObject
 	Tag      string  // raw struct tag overriding the generated one (bad-input grammars)
 	// Embed (PObject): where the embedded dig.In sits. 0 first; 1 last; 2
@@ -357,6 +358,9 @@ func paramType(p Param) reflect.Type {
 	case PSingle:
 		return TypeOf(p.Type)
 	case PGroup:
+		if p.SliceT != "" {
+			return TypeOf(p.SliceT)
+		}
 		return reflect.SliceOf(TypeOf(p.Type))
 	case PObject:
 		var fields []reflect.StructField
@@ -583,8 +587,11 @@ func (rt *Runtime) Body(f *Func, inst string, ft reflect.Type, args []reflect.Va
 					flatten, n = true, f.FlatN
 				}
 			}
-			if t.Kind() == reflect.Slice && (flatten || strings.HasPrefix(r.Type, "[")) {
-				code := strings.TrimSuffix(strings.TrimPrefix(r.Type, "["), "]")
+			if ec, isSlice := SliceElem(r.Type); t.Kind() == reflect.Slice && (flatten || isSlice) {
+				code := r.Type
+				if isSlice {
+					code = ec
+				}
 				if !flatten {
 					n = r.N
 				}
